@@ -41,6 +41,7 @@ def run_task(task):
         replay_fn = getattr(mod, task.get('replay', 'replay'), None)
         cross_fn = getattr(mod, task.get('crosscheck', 'crosscheck'), None) if task.get('cross', True) else None
         stats = res
+        replayed = {}
         for r in explore(run, max_paths=task.get('max_paths', 400000)):
             res['paths'] += 1
             res['solver_calls'] += r.ctx.n_solver_calls
@@ -76,7 +77,11 @@ def run_task(task):
                     continue
                 rec = dict(obligation=vc.name, props=list(vc.props), task=task['args'], pc=pc[:60],
                            model=str(model)[:4000])
-                if replay_fn is not None:
+                nrep = replayed.get(key, 0)
+                replayed[key] = nrep + 1
+                if nrep >= task.get('max_replays_per_clause', 2):
+                    rec['replay'] = dict(status='replay-skipped', reason='same clause already replayed for this task')
+                elif replay_fn is not None:
                     try:
                         rec['replay'] = replay_fn(env, vc, model)
                     except Exception as e:
